@@ -20,6 +20,7 @@ mod c06;
 mod c07;
 mod c08;
 mod c09;
+mod c10;
 mod c11;
 mod c12;
 mod c13;
@@ -86,6 +87,7 @@ fn main() {
             "C07" => c07::replay(&v["replay"]),
             "C08" => c08::replay(&v["replay"]),
             "C09" => c09::replay(&v["replay"]),
+            "C10" => c10::replay(&v["replay"]),
             "C11" => c11::replay(&v["replay"]),
             "C12" => c12::replay(&v["replay"]),
             "C13" => c13::replay(&v["replay"]),
@@ -122,6 +124,7 @@ fn main() {
             "C07" => c07::run(thorough),
             "C08" => c08::run(thorough),
             "C09" => c09::run(thorough),
+            "C10" => c10::run(thorough),
             "C11" => c11::run(thorough),
             "C12" => c12::run(thorough),
             "C13" => c13::run(thorough),
